@@ -18,6 +18,15 @@ CONFIGS = {
     # files with different reset values must not see each other's)
     'v6-pmsa-sec-rv': dict(arch=6, msa='PMSA', sec=True, reset_values=dict(VBAR=0x40, DACR=0x55555555, ACTLR=0x5)),
     'v7-vmsa-sec-rv': dict(arch=7, msa='VMSA', sec=True, reset_values=dict(VBAR=0x11000, DACR=0xFFFFFFFF)),
+    # the IMPLEMENTATION DEFINED choices the configuration file exposes, each set to the value the stock file does NOT
+    # have: reset vector and the VE interrupt vectors somewhere else, the other DFSR/HSR filler bits, fewer MPU regions
+    'v6-pmsa-sec-impdef': dict(arch=6, msa='PMSA', sec=True, has_imp_def_reset_vector=True, impdef_reset_vector=0x10040,
+                               impdef_irq_vector=0x11100, impdef_fiq_vector=0xFFFFF204, dfsr_string_12=0,
+                               data_abort_pmsa_change_dfar=False, number_of_mpu_regions=8, processor_id=3),
+    'v7-vmsa-virt-impdef': dict(arch=7, msa='VMSA', sec=True, virt=True, lpae=True, has_imp_def_reset_vector=True,
+                                impdef_reset_vector=0xFFFFF000, impdef_irq_vector=0x10018, impdef_fiq_vector=0x1001C,
+                                dfsr_string_12=0, data_abort_hsr_9=1, write_hsr_hsr_value_24=True, write_hsr_23_22_cond=False,
+                                coproc_accepted_pl0_undefined=False, have_mp_ext=True, processor_id=1),
 }
 
 RAM_A = (0x0, 0x8000)
